@@ -3,4 +3,4 @@
 # usage: dev_check.sh <repo-path> <PROP>...
 R=$1; shift
 mkdir -p /tmp/hdbg && rsync -a --delete --exclude target /verif/harness/src /verif/harness/Cargo.toml /verif/harness/Cargo.lock /verif/harness/.cargo /tmp/hdbg/ && sed -i "s#path = \"/repo\"#path = \"$R\"#" /tmp/hdbg/Cargo.toml
-for p in "$@"; do VERIF_HARNESS_DIR=/tmp/hdbg VERIF_OUT_DIR=/tmp/hdbg_out VERIF_EVIDENCE_DIR=/tmp/hdbg_evidence /verif/check $p --tier ${TIER:-quick} | tail -${LINES_OUT:-3}; done
+for p in "$@"; do VERIF_REPO_DIR=$R VERIF_HARNESS_DIR=/tmp/hdbg VERIF_OUT_DIR=/tmp/hdbg_out VERIF_EVIDENCE_DIR=/tmp/hdbg_evidence /verif/check $p --tier ${TIER:-quick} | tail -${LINES_OUT:-3}; done
